@@ -152,7 +152,23 @@ def analyse_body(facts, b):
             r = _root_of_place(b, rv["place"])
             if r is not None:
                 derived[s["place"]["local"]] = r
-    if not derived and not any(s["k"] == "assign" and s["rv"]["k"] == "aggregate" and s["rv"].get("adt") == BIGUINT for i, si, s in b.stmts()) and not any(callee(t) in DENORMAL_RETURN for i, t in b.calls()):
+    # `x.digits_mut()` on a pointer to a BigUint / BigInt hands out the digit vector as well
+    for i, t in b.calls():
+        if i not in live or callee_name(t) != "digits_mut" or not t["args"] or t["dest"]["proj"]:
+            continue
+        pl = core.op_place(t["args"][0])
+        if pl is None:
+            continue
+        base = _base_of_local(b, pl["local"])
+        if base is None:
+            continue
+        f = tuple(e.get("name") for e in pl["proj"] if e["k"] == "field")
+        ce = callee(t) or ""
+        own = "bigint::BigInt" if "bigint::BigInt" in ce else BIGUINT
+        r = (base[0], base[1], base[2] + f + ((("data",)) if own != BIGUINT else ()))
+        derived[t["dest"]["local"]] = r
+    denorm = getattr(facts, "_r1_denorm", {})
+    if not derived and not any(s["k"] == "assign" and s["rv"]["k"] == "aggregate" and s["rv"].get("adt") == BIGUINT for i, si, s in b.stmts()) and not any(callee(t) in DENORMAL_RETURN or callee(t) in denorm for i, t in b.calls()):
         return None
     # 2. propagate through copies / reborrows / pointer-deriving calls / iterator items
     changed = True
@@ -259,6 +275,19 @@ def analyse_body(facts, b):
             l = nxt[0]
         return l
 
+    for i, t in b.calls():
+        if i in live and callee(t) in denorm:
+            for k, cf in denorm[callee(t)].items():
+                if k - 1 >= len(t["args"]):
+                    continue
+                pl = core.op_place(t["args"][k - 1])
+                if pl is None:
+                    continue
+                base = _base_of_local(b, pl["local"])
+                if base is None:
+                    continue
+                f = tuple(e.get("name") for e in pl["proj"] if e["k"] == "field")
+                writes.setdefault((base[0], base[1], base[2] + f + tuple(cf)), []).append((i, "%s(..) leaves its argument unnormalised" % callee(t).split("::")[-1], t["span"]["line"]))
     for i, t in b.calls():
         if i in live and callee(t) in DENORMAL_RETURN and not t["dest"]["proj"]:
             writes.setdefault(("local", moved_into(t["dest"]["local"]), ()), []).append((i, "result of %s (may carry high zero digits)" % callee(t).split("::")[-1], t["span"]["line"]))
@@ -478,6 +507,25 @@ def check_biguint_normal_form(ctx, res, config="all"):
     facts = ctx.facts(config)
     n_writers = 0
     n_lit = 0
+    # private helpers that write the digits of a reference parameter and leave normalisation to their callers: their
+    # calls are write events in the callers (summaries, fixpoint over at most 4 rounds)
+    facts._r1_denorm = {}
+    for _round in range(4):
+        new = {}
+        for b in facts.bodies:
+            if b.exported() or b.kind == "Closure" or b.path in TRUSTED:
+                continue
+            try:
+                probs = analyse_body(facts, b)
+            except RecursionError:
+                probs = None
+            for (r, desc, line) in probs or []:
+                if r is not None and r[0] == "param" and b.local_ty(r[1]).startswith("&mut"):
+                    new.setdefault(b.path, {})[r[1]] = tuple(r[2])
+        if new == facts._r1_denorm:
+            break
+        facts._r1_denorm = new
+    summarised = facts._r1_denorm
     for b in facts.bodies:
         try:
             probs = analyse_body(facts, b)
@@ -486,6 +534,11 @@ def check_biguint_normal_form(ctx, res, config="all"):
         if probs is None:
             continue
         n_writers += 1
+        if b.path in summarised:
+            probs = [p_ for p_ in probs if not (p_[0] is not None and p_[0][0] == "param" and p_[0][1] in summarised[b.path])]
+            if not probs:
+                res.ok("R1-normal-form", b.path, {"private helper": "leaves its &mut argument to be normalised by its callers (call sites are write events)"}, nontrivial=True)
+                continue
         if not probs:
             res.ok("R1-normal-form", b.path, None, nontrivial=True)
             continue
